@@ -374,6 +374,86 @@ func runC14(c *vf.Case) {
 			c.Failf("nesting-deeper-than-dispatch-limit", "%d completion callbacks were nested on the stack (limit %d + the one dispatched by the poller)", w.MaxDepth, limit)
 		}
 	}
+	// Operations that complete immediately WITH AN ERROR unwind the depth accounting like successful ones: after the
+	// chain, every object is driven into a state where its operations fail inside the start call (accept with the
+	// descriptor table exhausted, read/write on a reset connection, read on a FIFO whose writer left, write on a FIFO
+	// whose reader left, datagram too long for UDP) and k of them are started from top level.
+	if !c.Failed() && len(w.InFlight()) == 0 {
+		for _, s := range srcs {
+			if c.Failed() {
+				break
+			}
+			k := r.Range(1, 40)
+			inlineErrors, started := 0, 0
+			count := func(op *sim.Op) {
+				if op.Err != nil && !op.Started {
+					inlineErrors++
+				}
+				c.Logf("  %s after the fault: err=%v n=%d deferred=%v", s.kind, op.Err, op.N, op.Started)
+			}
+			switch s.kind {
+			case "accept":
+				for i := 0; i < 3; i++ {
+					_ = w.PeerConnect(s.o)
+				}
+				withLimit(3, func() { // every new descriptor number would be >= 3: accept(2) fails with EMFILE
+					for i := 0; i < k && len(w.InFlight()) == 0; i++ {
+						w.NextOnDone = count
+						w.StartAccept(s.o, sim.BNone, nil, false)
+						started++
+					}
+				})
+			case "tcp-read", "tcp-write", "fifo-read", "fifo-write":
+				dir := 0
+				if strings.HasSuffix(s.kind, "write") {
+					dir = 1
+				}
+				if strings.HasPrefix(s.kind, "tcp") {
+					w.PeerReset(s.o)
+				} else {
+					w.PeerClose(s.o)
+				}
+				for i := 0; i < k && len(w.InFlight()) == 0; i++ {
+					w.NextOnDone = count
+					size := 8
+					if dir == 0 {
+						size = 1 << 16 // the first reads drain what is still buffered, the following ones fail
+					}
+					w.StartStream(s.o, dir, false, size, sim.BNone, nil, false)
+					started++
+				}
+			case "udp-writeto":
+				for i := 0; i < k && len(w.InFlight()) == 0; i++ {
+					w.NextOnDone = count
+					w.StartPacket(s.o, 1, 70000, sim.BNone, nil, false)
+					started++
+				}
+			case "mcast-write":
+				for i := 0; i < k; i++ {
+					returned := false
+					s.mc.AsyncWrite(make([]byte, 70000), netip.AddrPortFrom(netip.AddrFrom4([4]byte{127, 0, 0, 1}), uint16(s.mcPort)), func(err error, n int) {
+						if err != nil && !returned {
+							inlineErrors++
+						}
+					})
+					returned = true
+					started++
+				}
+			default:
+				continue
+			}
+			c.Count("operations_completed_inline_with_an_error", inlineErrors)
+			if inlineErrors > 0 {
+				c.Cover("inline_error_kinds", s.kind)
+			}
+			if w.IOC.Dispatched != 0 {
+				c.Failf("dispatched-counter-not-zero-after-unwinding", "IO.Dispatched=%d at top level after %d %s operations were started of which %d completed inside the start call with an error", w.IOC.Dispatched, started, s.kind, inlineErrors)
+			}
+			for it := 0; it < 50 && len(w.InFlight()) > 0; it++ {
+				w.Poll()
+			}
+		}
+	}
 	c.Max("max_depth_seen", int64(w.MaxDepth))
 	c.Count("chain_operations", done)
 	c.Count("zero_length_operations", zeroLen)
